@@ -8,6 +8,7 @@
 (*    Z  every boolean-sorted tree with <= GenChainOps binary operators (the flat operator *)
 (*       chains of up to GenChainOps+1 operands and all their parenthesisations) over      *)
 (*       GenChainCfg, for every field sort and value;                                       *)
+(*    D  (x arith y) cmp z for every arithmetic operator and numeric leaf incl. 0, 0.5, -1, $; *)
 (*    K  the minimal cases of the known findings.                                        *)
 (*    Each tree is printed twice: minimal parentheses and a redundant style; the spacing *)
 (*    style rotates with the tree's index.                                               *)
@@ -50,11 +51,17 @@ TVals(k) == IF GenPtr THEN ValsOfSort(k) ELSE {v \in ValsOfSort(k) : v.kind # "p
 TPairs == UNION {Pairs(BT(k, GenDepth, GenCfg), TVals(k)) : k \in Sorts}
 \* Z: every boolean-sorted tree with 1..GenChainOps binary operators (flat chains under minimal printing)
 ZPairs == UNION {Pairs(UNION {BZ(k, m, GenChainCfg) : m \in 1 .. GenChainOps}, TVals(k)) : k \in Sorts}
+\* D: every arithmetic operator applied to every pair of numeric leaves (0, fractions, negatives, $), compared with
+\*    a third leaf: division / remainder by zero, NaN in comparisons, remainder of negatives and fractions
+DLeaves == {Num(0), Num(Scale), Num(2 * Scale), Num(32), Num(0 - Scale), Fld}
+DTrees == {Bin(c, Bin(a, x, y), z) : c \in {"<", "==", ">="}, a \in MulOps \cup AddOps, x \in DLeaves, y \in DLeaves,
+                                      z \in {Num(0), Num(Scale), Fld}}
+DPairs == Pairs(DTrees, TVals("num"))
 KPairs == {<<Bin("==", Bin("%", Fld, Num(32)), Num(0)), FV("int", Scale, "", FALSE)>>,
            <<Bin("==", Fld, Fld), FV("slice", 0, "", FALSE)>>,
            <<In(<<Fld, Fld>>), FV("slice", 0, "", FALSE)>>}
 
-AllPairs == SetToSeq(UPairs \cup TPairs \cup ZPairs \cup KPairs)
+AllPairs == SetToSeq(UPairs \cup TPairs \cup ZPairs \cup DPairs \cup KPairs)
 
 \* (LET-bound so that TLC evaluates the pair sequence once)
 Cases == LET S == AllPairs
